@@ -230,6 +230,16 @@ struct handler *__hook_load_handler(const char *config_path, size_t cpl, struct 
   }
   return (struct handler *)&S;
 }
+/* main() has no business loading the configuration itself (load_handler does, after the privilege drop): if it ever
+   does, the call is recorded with the credentials of that moment */
+struct config *__hook_load_config(const char *path, struct trace *trace) {
+  (void)path;
+  (void)trace;
+  printf("loadconfig %u %u %d\n", M.uid, M.gid, M.ngroups);
+  return NULL;
+}
+void __hook_free_config(struct config *config) { (void)config; }
+
 void __hook_handle_open_exec(pid_t pid, int fd, struct handler *h, struct trace *trace) {
   printf("exec %d %d\n", pid, fd);
   if (!S.active->execok) {
